@@ -129,12 +129,12 @@ var expectedRefactorAlarms = map[string]string{
 	"Z01-3": "will topic validated by (*Config).willTopicCheck", "Z09-4": "size and checksum tests of decodeValue in valueIntegrity(buf) error",
 	// the decode loop driven by a flag once more
 	"Z04-5": "remaining-length decode with a more flag as loop condition",
-	// round Q, configuration, construction and locking code (DESIGN §7): 44 of 50 are silent; what still alarms —
+	// round Q, configuration, construction and locking code (DESIGN §7): 45 of 50 are silent; what still alarms —
 	// a default applied, a per-attempt Config built, or a sequence token taken and counters installed by a helper that gets the
 	// target or the value as a parameter (different values per call site)
 	"Q01-1": "Max clamps through limitTransactionMax(*int)", "Q05-5": "per-attempt Config built by connectConfig(reconnect)", "Q09-2": "sequence counters installed by installSeq(seqSem, n)",
-	// the amount peeked as min(size, buffer size); the tail of dialAndConnect as a helper; the local names of the cleaned lists dropped
-	"Q04-1": "Peek amount as min(size, c.bufr.Size())", "Q05-3": "abort watcher and handshake in handshakeOrAbort", "Q09-3": "AdoptSession reads the list variables directly",
+	// the tail of dialAndConnect as a helper; the local names of the cleaned lists dropped
+	"Q05-3": "abort watcher and handshake in handshakeOrAbort", "Q09-3": "AdoptSession reads the list variables directly",
 }
 
 func runCase(c stCase, repo, verif, self string) stResult {
